@@ -100,7 +100,7 @@ def populated(hist, kp, decoys=None, failed=None):
 
     def failing_save(j, f):
         """a save that fails part-way ON S3: the bucket refuses mutation number f["crash"] of this save (0 = the first
-        put, 1 = the second); save_recording raises, so the recording is not saved - nothing is stored on the other
+        put, 1 = the second) and every later one, or ("only") just that one; save_recording raises, so the recording is not saved - nothing is stored on the other
         cassettes either.  The recording is created on all three (the ids exist, they may just never be listed)."""
         o = first_clean.get(f["uuid"], FAILED_BASE + min(k for k, g in enumerate(failed) if g["uuid"] == f["uuid"]))
         if f["uuid"] not in by_uuid:
@@ -122,7 +122,10 @@ def populated(hist, kp, decoys=None, failed=None):
         r.set_data('k', o)
         r.add_metadata(meta_of(f["meta"]))
         store = fake_s3.store(bucket)
-        store.crash_after = len(store.log) + f["crash"]
+        if f.get("only"):
+            store.refuse_nth = f["crash"]        # only that one request is refused (size cap, throttling); later ones pass
+        else:
+            store.crash_after = len(store.log) + f["crash"]     # nothing gets through from that request on
         try:
             cas["s3"].save_recording(r)
             failed_res.append("ok")
@@ -130,6 +133,7 @@ def populated(hist, kp, decoys=None, failed=None):
             failed_res.append(type(ex).__name__)
         finally:
             store.crash_after = None
+            store.refuse_nth = None
 
     for i, e in enumerate(hist):
         for j, f in enumerate(failed):
